@@ -5,6 +5,8 @@ open TD TD.C05 TD.Proto
 /-
 Line protocol (bytes lowercase hex, `-` empty):
   w <tif 0|1> <prMax> <rec 0|1> <fileNum N|int> <chk 0|1> <rec,rec,..>   writer model -> ok <file> <tells> | err write
+  wo <tif 0|1> ...             writer model without close() -> ok <file> <tells>
+  eo <k> <tif 0|1|2> ...       spec encoder with only the first k (0,1,2) TIF EOF markers -> ok <file>
   e <tif 0|1|2> <prMax> <rec> <fileNum> <chk> <rec,rec,..>               spec encoder  -> ok <file> <tells> <size>
   h <file> <op,op,..>          reader model history (ops: r<n> s<n> n k<offset> t) -> replies joined by ','
   a <tif> <prMax> <rec> <fileNum> <chk> <rec,rec,..> <op,op,..>          abstract semantics (k<index>) -> replies
@@ -63,6 +65,17 @@ def handle (line : String) : String :=
       | .ok (b, ts) => s!"ok {hex b} {joinNats ts}"
       | .error _ => "err write"
     | _, _ => "bad-op"
+  | ["wo", t, p, r, fnum, c, recs] =>
+    match parseLayout t p r fnum c, parseRecs recs with
+    | some L, some rs =>
+      match writeFileOpen (L.tif != .off) L.prMax L.hasRec L.fileNum L.hasChk rs with
+      | .ok (b, ts) => s!"ok {hex b} {joinNats ts}"
+      | .error _ => "err write"
+    | _, _ => "bad-op"
+  | ["eo", k, t, p, r, fnum, c, recs] =>
+    match k.toNat?, parseLayout t p r fnum c, parseRecs recs with
+    | some k, some L, some rs => s!"ok {hex (encodeN L rs k)}"
+    | _, _, _ => "bad-op"
   | ["e", t, p, r, fnum, c, recs] =>
     match parseLayout t p r fnum c, parseRecs recs with
     | some L, some rs =>
